@@ -16,7 +16,7 @@ META = {
     "shards": {"quick": 16, "thorough": 8},
     "exhaustive_within_bound": True,
     "bounds": {
-        "quick": "2-name universes {a,b}, {bb.i,bb.o}, {a,bb.o}, {bb.i,zz.p} (self-loops give fan-in/fan-out counts 0,1,2 = every threshold the rules use); registry in {none, bb(i;o)}; type in 14 supported + unsupported + missing; 5 flag combinations forming a pairwise covering array (every pair of flags in all four value combinations; first = defaults)",
+        "quick": "2-name universes {a,b}, {bb.i,bb.o}, {a,bb.o}, {bb.i,zz.p} (self-loops give fan-in/fan-out counts 0,1,2 = every threshold the rules use); registry in {none, bb(i;o)}; type in 14 supported + unsupported string + missing + a non-string value; 5 flag combinations forming a pairwise covering array (every pair of flags in all four value combinations; first = defaults)",
         "thorough": "all 16 flag combinations on the 2-name universes + 3-name universe {a,b,c} with types restricted to {input, buf, and, bb_output, 0, unsupported}",
     },
     "outside": ["graphs with more names (every rule needs at most a focus node, two predecessors or two successors)", "second sentence of the property (library outputs are lint-clean) is a concrete side assertion made by every E1 harness on every circuit the library returns; C20's evidence aggregates the count from the other evidence files"],
@@ -24,7 +24,7 @@ META = {
     "rule": "state = explored path; transition = solver-decided branch",
 }
 
-UNIVERSES = {"plain": ["a", "b"], "pins": ["bb.i", "bb.o"], "mixed_o": ["a", "bb.o"], "mixed_i": ["bb.i", "zz.p"], "prefix": ["bb.o", "bbx.i"]}
+UNIVERSES = {"trailing": ["a", "zz."], "plain": ["a", "b"], "pins": ["bb.i", "bb.o"], "mixed_o": ["a", "bb.o"], "mixed_i": ["bb.i", "zz.p"], "prefix": ["bb.o", "bbx.i"]}
 # pairwise covering array over the four flags (every pair of flags takes all four value combinations); first row = defaults
 FLAGS_QUICK = [(True, False, True, False), (True, True, False, True), (False, False, False, True), (False, True, True, True), (False, True, False, False)]
 
@@ -35,7 +35,8 @@ def all_cases(ctx):
     cs = []
     for un, U in UNIVERSES.items():
         for reg in (False, True):
-            for fl in flags:
+            # the per-node rules are flag dependent: full flag menu on the plain and pin universes, two combinations on the name-rule universes
+            for fl in (flags if (un in ("plain", "pins") or not ctx.quick) else [flags[0], flags[1]]):
                 for k in [int(format(k, f"0{sb}b")[::-1], 2) for k in range(1 << sb)]:
                     cs.append(((un, reg, fl, k), (U, reg, fl, sb, k, None)))
     # error-count dimension: K concrete ill-formed nodes (constant '0' with a self-loop = exactly one error each) + one fully symbolic node
@@ -162,7 +163,7 @@ def run(ctx):
                 elif not (u == "a" and v == "a"):
                     pre.append(z3.Not(e))
         else:
-            pre = sg.base_pre(vars_, types=types or (TYPES + ["UNSUPPORTED", "MISSING"]))
+            pre = sg.base_pre(vars_, types=types or (TYPES + ["UNSUPPORTED", "MISSING", "NONSTR"]))
         registry = {"bb": (["i"], ["o"])} if reg else {}
         if reg and "bb.i" not in U and "bb.o" in U:
             registry = {"bb": ([], ["o"])}  # universes without the input pin: a box that only has the output pin (else the pin rule always fires)
@@ -195,7 +196,7 @@ def run(ctx):
                 res.append(("no-write", z3.BoolVal(not g_.wnode and not g_.wattr and not g_.wedge and not g_.created), "lint:writes-to-circuit", "lint modified the circuit it was called on"))
             return res
 
-        st = e2.run(ctx, "lint", U, vars_, pre, registry, op, posts, split=(sb, k), detail={"case": cid, "flags": dict(zip(("fail_fast", "unloaded", "undriven", "single_input_gates"), fl)), "registry": reg})
+        st = e2.run(ctx, "lint", U, vars_, pre, registry, op, posts, split=(sb, k), detail={"case": cid, "flags": dict(zip(("fail_fast", "unloaded", "undriven", "single_input_gates"), fl)), "registry": reg}, nonstr=True)
         ctx.sample({"case": cid, "universe": U, "flags": fl, "registry": reg, "paths": st["paths"]})
 
 
